@@ -127,7 +127,8 @@ def st_case(draw):
     wave = cand[i]
     dt = draw(A.dtypes())
     x = draw(A.arrays(shape, dt))
-    return {"wave": wave, "shape": shape, "axes": axes, "level": level, "x": x, "seed": draw(A.seeds)}
+    return {"wave": wave, "shape": shape, "axes": axes, "level": level, "x": x, "seed": draw(A.seeds),
+            "layout": draw(st.sampled_from(A.LAYOUTS))}
 
 
 def _call(r, key, fn):
@@ -167,7 +168,7 @@ def check_case(case):
     r = R()
     wave, shape, level = case["wave"], list(case["shape"]), case["level"]
     axes = None if case["axes"] is None else tuple(case["axes"])
-    x = A.arr(case["x"])
+    x = A.relayout(A.arr(case["x"]), case.get("layout", "c"))      # caller's array in the generated memory layout
     dt = case["x"]["dtype"]
     cplx = np.dtype(dt).kind == "c"
     tol = 2e-4 if np.dtype(dt) in (np.dtype("float32"), np.dtype("complex64")) else 1e-8
